@@ -11,7 +11,7 @@ META = {
     "C01": ("round-trip oracle, Hypothesis + enumeration of curve counts",
             "write->read round trip over generated LASFiles x writer options x both engines; tolerance = half a unit of the last "
             "printed digit computed in exact rational arithmetic; every curve count 1..40 enumerated for wrapped default output",
-            "formats restricted to rounding formats; spacer='' only with a sufficient len_numeric_field; data_width >= widest field"),
+            "formats restricted to rounding formats; spacer='' only with a sufficient len_numeric_field; any data_width (a value is never split: former precondition lifted with the repair of D48); objects built from scratch or obtained from a read with any mnemonic_case"),
     "C02": ("differential testing (numpy vs normal engine), Hypothesis + layout grid",
             "differential oracle between the two data engines over generated layouts (noise lines, trailing sections, CRLF, "
             "missing final newline, 1xN, Nx1, 1x1) with an entry-point wrapper proving the fast path produced the data",
